@@ -185,13 +185,16 @@ pub struct RefStore {
     pub items: Vec<Passkey>,
     pub newest_first: bool,
     pub cap: Cap,
+    /// answer "nothing found" with Ok(empty list) instead of Err(NoCredentials) – both are
+    /// legitimate for a store
+    pub empty_ok: bool,
 }
 impl RefStore {
     pub fn new() -> Self {
-        Self { items: vec![], newest_first: true, cap: Cap::ForcedDiscoverable }
+        Self { items: vec![], newest_first: true, cap: Cap::ForcedDiscoverable, empty_ok: false }
     }
     pub fn with(items: Vec<Passkey>) -> Self {
-        Self { items, newest_first: true, cap: Cap::ForcedDiscoverable }
+        Self { items, newest_first: true, cap: Cap::ForcedDiscoverable, empty_ok: false }
     }
     /// records in insertion order (the `Inspect` trait gives them sorted by id)
     pub fn recs_ordered(&self) -> Vec<Rec> {
@@ -212,7 +215,7 @@ impl CredentialStore for RefStore {
     type PasskeyItem = Passkey;
     async fn find_credentials(&self, ids: Option<&[PublicKeyCredentialDescriptor]>, rp_id: &str) -> Result<Vec<Passkey>, StatusCode> {
         let v = self.lookup(ids, rp_id);
-        if v.is_empty() {
+        if v.is_empty() && !self.empty_ok {
             Err(Ctap2Error::NoCredentials.into())
         } else {
             Ok(v)
@@ -405,8 +408,11 @@ impl<S> Shared<S> {
 impl CredentialStore for Shared<RefStore> {
     type PasskeyItem = Passkey;
     async fn find_credentials(&self, ids: Option<&[PublicKeyCredentialDescriptor]>, rp_id: &str) -> Result<Vec<Passkey>, StatusCode> {
-        let v = self.0.lock().unwrap().lookup(ids, rp_id);
-        if v.is_empty() {
+        let (v, empty_ok) = {
+            let g = self.0.lock().unwrap();
+            (g.lookup(ids, rp_id), g.empty_ok)
+        };
+        if v.is_empty() && !empty_ok {
             Err(Ctap2Error::NoCredentials.into())
         } else {
             Ok(v)
